@@ -100,6 +100,17 @@ pub struct Inner {
     /// a client future is being polled: reader jobs it spawns start only after the poll returned, so
     /// that whether the poll already sees the job's answer does not depend on thread timing
     pub client_polling: bool,
+    /// the store's own syncer thread runs its real loop; its sleep is a point where it parks until the
+    /// scheduler's timer fires (otherwise the thread returns at once and the harness sends FlushPoll)
+    pub real_syncer: bool,
+    pub syncer_active: bool,
+    pub syncer_parked: bool,
+    pub syncer_grant: bool,
+    pub syncer_stop: bool,
+    pub syncer_sleep_ns: u64,
+    pub syncer_iterations: u64,
+    pub syncer_starts: u64,
+    pub syncer_note: String,
     pub flush_parked: u32,
     pub flush_outstanding: i64,
     pub flush_started: u64,
@@ -219,6 +230,96 @@ impl GateSim {
         let mut g = self.lock();
         g.writers.clear();
         g.reader_inflight = 0;
+    }
+
+    pub fn syncer_starts(&self) -> u64 {
+        self.lock().syncer_starts
+    }
+
+    /// Waits until the syncer thread of the store that was just opened has reported.
+    pub fn wait_syncer_started(&self, before: u64) {
+        let mut g = self.lock();
+        let start = std::time::Instant::now();
+        while g.syncer_starts <= before {
+            let (ng, _) = self.cv.wait_timeout(g, Duration::from_millis(5)).unwrap_or_else(|e| e.into_inner());
+            g = ng;
+            if start.elapsed() > STUCK {
+                panic!("simulation stuck: the syncer thread of a freshly opened store never started");
+            }
+        }
+    }
+
+    pub fn set_real_syncer(&self, on: bool) {
+        self.lock().real_syncer = on;
+    }
+
+    pub fn real_syncer_active(&self) -> bool {
+        let g = self.lock();
+        g.real_syncer && g.syncer_active
+    }
+
+    /// The store is being closed: the parked syncer thread leaves its loop.
+    pub fn stop_syncer(&self) {
+        let mut g = self.lock();
+        if !g.syncer_active {
+            return;
+        }
+        g.syncer_stop = true;
+        self.cv.notify_all();
+        let start = std::time::Instant::now();
+        while g.syncer_active {
+            let (ng, _) = self.cv.wait_timeout(g, Duration::from_millis(5)).unwrap_or_else(|e| e.into_inner());
+            g = ng;
+            if start.elapsed() > STUCK {
+                panic!("simulation stuck: the syncer thread does not stop");
+            }
+        }
+        g.syncer_stop = false;
+    }
+
+    /// One iteration of the real syncer loop: the clock moves past its sleep, the thread runs until
+    /// it sleeps again. Returns false when no real syncer thread is parked.
+    pub fn syncer_tick(&self) -> bool {
+        let mut g = self.lock();
+        let start = std::time::Instant::now();
+        while g.syncer_active && !g.syncer_parked {
+            let (ng, _) = self.cv.wait_timeout(g, Duration::from_millis(5)).unwrap_or_else(|e| e.into_inner());
+            g = ng;
+            if start.elapsed() > STUCK {
+                panic!("simulation stuck: the syncer thread does not reach its sleep");
+            }
+        }
+        if !g.syncer_active {
+            return false;
+        }
+        let ns = g.syncer_sleep_ns;
+        let before = g.syncer_iterations;
+        drop(g);
+        self.advance(ns);
+        let mut g = self.lock();
+        g.syncer_grant = true;
+        self.cv.notify_all();
+        while g.syncer_active && (g.syncer_iterations == before || !g.syncer_parked) {
+            let (ng, _) = self.cv.wait_timeout(g, Duration::from_millis(5)).unwrap_or_else(|e| e.into_inner());
+            g = ng;
+            if start.elapsed() > STUCK {
+                panic!("simulation stuck: the syncer thread does not come back to its sleep (active {} parked {} grant {} stop {} iterations {} before {} sleep_ns {}; threads: {})", g.syncer_active, g.syncer_parked, g.syncer_grant, g.syncer_stop, g.syncer_iterations, before, g.syncer_sleep_ns, format!("{} sites start={:?} sleep={:?} passthrough={} {}", g.syncer_note, g.sites.get("syncer:start"), g.sites.get("syncer:sleep"), g.passthrough, thread_states()));
+            }
+        }
+        true
+    }
+
+    /// Sets a writer's queue length from the channel itself (after a real syncer tick).
+    pub fn set_writer_queue(&self, id: u64, len: i64) {
+        let mut g = self.lock();
+        let w = g.writers.entry(id).or_default();
+        if len > w.queue {
+            g.activity = true;
+        }
+        let w = g.writers.entry(id).or_default();
+        w.queue = len;
+        drop(g);
+        self.cv.notify_all();
     }
 
     pub fn set_client_polling(&self, on: bool) {
@@ -539,6 +640,13 @@ impl Sim for GateSim {
         }
         let role = role();
         let mut g = self.lock();
+        if site == "syncer:start" {
+            // every store's syncer thread reports here once, right after it was spawned; the harness
+            // waits for that inside open(), so a late-starting thread of an already closed store can
+            // never be taken for the current store's
+            g.syncer_starts += 1;
+            self.cv.notify_all();
+        }
         if g.passthrough {
             return Action::Continue;
         }
@@ -575,6 +683,47 @@ impl Sim for GateSim {
             }
             "reader:job+" => {
                 g.reader_inflight += 1;
+                Action::Continue
+            }
+            "syncer:start" => {
+                let tid = unsafe { libc::syscall(libc::SYS_gettid) };
+                let note = format!("[start tid {tid} real {} active {}]", g.real_syncer, g.syncer_active);
+                g.syncer_note.push_str(&note);
+                if g.real_syncer && !g.passthrough && !g.syncer_active {
+                    g.syncer_active = true;
+                    SYNCER_EPOCH.with(|e| e.set(g.epoch));
+                    Action::Yield
+                } else {
+                    Action::Continue
+                }
+            }
+            "syncer:sleep" => {
+                let epoch = g.epoch;
+                let tid = unsafe { libc::syscall(libc::SYS_gettid) };
+                let note = format!("[sleep tid {tid} a {a} stop {} grant {}]", g.syncer_stop, g.syncer_grant);
+                g.syncer_note.push_str(&note);
+                if SYNCER_EPOCH.with(|e| e.get()) != epoch {
+                    // a thread of an earlier run's store: it has nothing to do with this run
+                    g.syncer_note.push_str(&format!("[stale thread epoch {} now {}]", SYNCER_EPOCH.with(|e| e.get()), epoch));
+                    return Action::Fail;
+                }
+                g.syncer_parked = true;
+                g.syncer_sleep_ns = a;
+                self.cv.notify_all();
+                while !g.syncer_grant && !g.syncer_stop && g.epoch == epoch {
+                    g = self.cv.wait(g).unwrap_or_else(|e| e.into_inner());
+                }
+                if g.epoch != epoch {
+                    return Action::Fail;
+                }
+                g.syncer_parked = false;
+                if g.syncer_stop {
+                    g.syncer_active = false;
+                    self.cv.notify_all();
+                    return Action::Fail;
+                }
+                g.syncer_grant = false;
+                g.syncer_iterations += 1;
                 Action::Continue
             }
             "reader:job:start" => {
@@ -693,6 +842,11 @@ impl Wake for Flag {
     }
 }
 
+thread_local! {
+    /// the run (epoch) in which this thread became the real syncer thread
+    static SYNCER_EPOCH: std::cell::Cell<u64> = const { std::cell::Cell::new(u64::MAX) };
+}
+
 /// True when every thread of this process except the caller is sleeping (state S/T/Z in
 /// /proc/self/task/<tid>/stat): nobody is running, runnable or in disk wait.
 pub fn other_threads_all_sleeping() -> bool {
@@ -713,4 +867,19 @@ pub fn other_threads_all_sleeping() -> bool {
         }
     }
     true
+}
+
+/// "name:state" of every thread of this process (diagnostics for stuck simulations).
+pub fn thread_states() -> String {
+    let mut out = Vec::new();
+    if let Ok(rd) = std::fs::read_dir("/proc/self/task") {
+        for e in rd.flatten() {
+            let comm = std::fs::read_to_string(e.path().join("comm")).unwrap_or_default();
+            let stat = std::fs::read_to_string(e.path().join("stat")).unwrap_or_default();
+            let state = stat.rfind(')').map(|p| stat[p + 1..].trim_start().chars().next().unwrap_or('?')).unwrap_or('?');
+            let wchan = std::fs::read_to_string(e.path().join("wchan")).unwrap_or_default();
+            out.push(format!("{}:{}:{}", comm.trim(), state, wchan.trim()));
+        }
+    }
+    out.join(" ")
 }
